@@ -86,7 +86,12 @@ impl Net {
     pub fn size(&self) -> u64 {
         (self.n as u64) * 1_000_000
             + (self.m() as u64) * 10_000
-            + self.edges.iter().map(|e| e.2 as u64).sum::<u64>().min(9_999)
+            + self
+                .edges
+                .iter()
+                .map(|e| e.2 as u64)
+                .sum::<u64>()
+                .min(9_999)
     }
 }
 
@@ -141,7 +146,9 @@ pub fn line_xy(n: usize) -> Vec<(f32, f32)> {
 
 fn hav_xy(a: (f32, f32), b: (f32, f32)) -> f64 {
     use routee_compass_core::model::unit::as_f64::AsF64;
-    routee_compass_core::util::geo::haversine::haversine_distance_meters(a.0, a.1, b.0, b.1).map(|d| d.as_f64()).unwrap_or(f64::NAN)
+    routee_compass_core::util::geo::haversine::haversine_distance_meters(a.0, a.1, b.0, b.1)
+        .map(|d| d.as_f64())
+        .unwrap_or(f64::NAN)
 }
 
 #[derive(Clone, Debug)]
@@ -253,7 +260,15 @@ pub fn for_each_in_shard(
             .enumerate()
             .map(|(i, (p, l))| (pairs[*p].0, pairs[*p].1, spec.len_of(i, pairs[*p], *l)))
             .collect();
-        f(&Net { n: spec.n, edges, xy: if spec.mode == LenMode::LineMetric || spec.mode == LenMode::LineShort { Some(line_xy(spec.n)) } else { None } });
+        f(&Net {
+            n: spec.n,
+            edges,
+            xy: if spec.mode == LenMode::LineMetric || spec.mode == LenMode::LineShort {
+                Some(line_xy(spec.n))
+            } else {
+                None
+            },
+        });
     }
     fn rec(
         spec: &GenSpec,
@@ -312,7 +327,14 @@ where
                     "harness",
                     "shard_panicked",
                     0,
-                    || format!("shard {:?} of {} panicked: {}", prefix, spec.describe(), msg),
+                    || {
+                        format!(
+                            "shard {:?} of {} panicked: {}",
+                            prefix,
+                            spec.describe(),
+                            msg
+                        )
+                    },
                     || serde_json::json!({"spec": spec.describe(), "prefix": prefix}),
                 );
             }
